@@ -38,12 +38,13 @@ type upSpec struct {
 }
 
 type caseDesc struct {
-	Ups        []upSpec `json:"upstreams"`
-	Forward    string   `json:"forward"` // none, reachable, unreachable
-	MustSecure bool     `json:"must_secure"`
-	K          int      `json:"concurrent"`
-	Loss       string   `json:"loss"` // none, cut-rst, cut-fin, server-restart
-	After      int      `json:"connections_after_loss"`
+	Ups             []upSpec `json:"upstreams"`
+	Forward         string   `json:"forward"` // none, reachable, unreachable
+	MustSecure      bool     `json:"must_secure"`
+	K               int      `json:"concurrent"`
+	Loss            string   `json:"loss"` // none, cut-rst, cut-fin, server-restart
+	After           int      `json:"connections_after_loss"`
+	AfterConcurrent int      `json:"concurrent_connections_right_after_loss"`
 }
 
 // endpoint is one upstream candidate as built by the harness.
@@ -366,6 +367,12 @@ func runCase(d caseDesc, abandonBound time.Duration) (problem string, inconclusi
 	if e.relay != nil {
 		before = e.relay.Connections()
 	}
+	if d.AfterConcurrent > 1 {
+		// several local connections arrive together while the loss has not been noticed yet
+		if msg := round(d.AfterConcurrent, fmt.Sprintf("%d concurrent connections after session loss (%s)", d.AfterConcurrent, d.Loss)); msg != "" {
+			return msg, false
+		}
+	}
 	for i := 0; i < d.After; i++ {
 		if msg := round(1, fmt.Sprintf("connection %d after session loss (%s)", i+1, d.Loss)); msg != "" {
 			return msg, false
@@ -373,7 +380,7 @@ func runCase(d caseDesc, abandonBound time.Duration) (problem string, inconclusi
 	}
 	if e.relay != nil {
 		if n := e.relay.Connections() - before; n > 1 {
-			return fmt.Sprintf("%d new physical connections for %d sequential logical connections after the loss, want 1", n, d.After), false
+			return fmt.Sprintf("%d new physical connections for %d concurrent + %d sequential logical connections after the loss, want 1", n, d.AfterConcurrent, d.After), false
 		}
 	}
 	return "", false
@@ -419,6 +426,9 @@ func TestPolicy(t *testing.T) {
 		d.K = rapid.IntRange(1, 5).Draw(rt, "k")
 		d.Loss = []string{"none", "cut-rst", "cut-fin", "server-restart"}[rapid.IntRange(0, 3).Draw(rt, "loss")]
 		d.After = rapid.IntRange(1, 3).Draw(rt, "after")
+		if rapid.Bool().Draw(rt, "afterConcurrently") {
+			d.AfterConcurrent = rapid.IntRange(2, 5).Draw(rt, "afterConcurrent")
+		}
 		vlib.Tap.Reset()
 		problem, inconclusive := runCase(d, 15*time.Second)
 		if inconclusive {
